@@ -347,6 +347,8 @@ class CallMixin:
         vals = {p: env[p] for p in con.params}
         for label, fn in con.requires:
             st.pc = st.pc + (self.as_bool(fn(cx0, **vals)),)
+        for ax in con.ghost.get("axioms", []):
+            st.pc = st.pc + (ax() if callable(ax) else ax,)     # definitions of ghost functions (closed formulas)
         self.entry_state = st.copy()
         # vacuity: the precondition must be satisfiable
         self.emit("cover", "pre", st, z3.BoolVal(False), expect="sat", note="precondition satisfiable")
